@@ -36,15 +36,12 @@ EXHAUSTIVE = {"quick": "all 36 tables over PIDs {5,7} x ppid in {5,7,unlisted 3}
 CASE_TIMEOUT = 30
 SHARD = 120
 
-# model parameters: the four repairs found with this check are in /repo (6afb079 skip_self, 3959fba parent_reuse, e202d3b
-# parents_seen, 671469c parents_nsp).  All True = the code as it is now.  C05_OLD=skip_self,... evaluates the model of the code
-# WITHOUT a repair (only useful to replay an old defect against a reverted copy:  C05_OLD=parents_nsp VERIF_REPO=<copy> ./vcheck C05 quick).
-FIXES = {"skip_self": True, "parents_seen": True, "parent_reuse": True, "parents_nsp": True,
-         "mono": False}   # proposed repair notes/fixes/C05-compare-start-times-on-one-clock.diff: NOT in /repo
+# model parameters: the five repairs found with this check are in /repo (6afb079 skip_self, 3959fba parent_reuse, e202d3b
+# parents_seen, 671469c parents_nsp, e49a6c9 mono).  All True = the code as it is now.  C05_OLD=skip_self,... evaluates the model of
+# the code WITHOUT a repair (only useful to replay an old defect against a reverted copy:  C05_OLD=mono VERIF_REPO=<copy> ./vcheck C05 quick).
+FIXES = {"skip_self": True, "parents_seen": True, "parent_reuse": True, "parents_nsp": True, "mono": True}
 for _k in filter(None, os.environ.get("C05_OLD", "").split(",")):
     FIXES[_k] = False
-for _k in filter(None, os.environ.get("C05_NEW", "").split(",")):
-    FIXES[_k] = True
 BTIME0 = 1500000000
 
 OPS = ["children", "children_rec", "parent", "parents"]
@@ -294,13 +291,17 @@ def _clock_case(rng):
            "set-ct-boot": [["set", b1], ["ct"], ["boot"]],
            "ct-set-boot-set-boot": [["ct"], ["set", b1], ["boot"], ["set", BTIME0 - delta], ["boot"]],
            "set": [["set", b1]], "set-boot": [["set", b1], ["boot"]], "ct-set-ct": [["ct"], ["set", b1], ["ct"]]}[pat]
+    prior = None
+    if rng.random() < 0.45:          # the cache is filled by an earlier call on the same object instead of create_time()
+        prior = rng.choice(PRIOR_CALLS)
+        evs = [[prior] if e[0] == "ct" else e for e in evs]
     op = rng.choice(OPS)
     cache = None
     if op in ("parent", "parents") and rng.random() < 0.5:
         cache = 1
     if rng.random() < 0.3:
         rng.shuffle(tab)
-    c = _mk(op, tab, pid, S, any(e[0] == "ct" for e in evs), cache, [], "clock-%s-%s" % (op, pat))
+    c = _mk(op, tab, pid, S, any(e[0] == "ct" for e in evs), cache, [], "clock-%s-%s%s" % (op, pat, "-prior_" + prior if prior else ""))
     c["clock"] = evs
     return c
 
@@ -402,6 +403,25 @@ def _fx():
                                           G.bo(FIXES["parents_nsp"]), G.bo(FIXES["mono"]))
 
 
+PRIOR_CALLS = ("children", "children_rec", "parent", "parents", "as_dict")
+
+
+def _hev(e, case):
+    """Coq event of one step of the caller's history.  An earlier children()/parent()/parents() call on the same object does
+    not touch the clock state in the code as it is (the age tests use the identity's start time, not create_time());
+    as_dict() reads create_time().  For the model of the code BEFORE e49a6c9 (C05_OLD=mono) an earlier call filled the
+    create_time() cache when it compared anything: approximated by 'ct' (exact unless nothing was compared)."""
+    if e[0] == "ct" or e[0] == "as_dict":
+        return "HCt"
+    if e[0] == "boot":
+        return "HBoot"
+    if e[0] == "set":
+        return "(HSet %s)" % G.z(e[1])
+    if e[0] in PRIOR_CALLS:
+        return None if FIXES["mono"] else "HCt"
+    raise ValueError(e)
+
+
 def clock_events(case):
     """The clock history of the caller object before the call: list of ["ct"] | ["set", btime seconds] | ["boot"]."""
     if "clock" in case:
@@ -411,7 +431,7 @@ def clock_events(case):
 
 def coq_term(case):
     tab = G.lst(["(%s,%s,%s)" % (G.z(p), G.z(pp), G.z(s)) for p, pp, s in case["tab"]])
-    evs = G.lst([{"ct": "HCt", "boot": "HBoot"}.get(e[0]) or "(HSet %s)" % G.z(e[1]) for e in clock_events(case)])
+    evs = G.lst([t for t in (_hev(e, case) for e in clock_events(case)) if t])
     obj = "(mk_obj %s %s %s %s)" % (G.z(case["pid"]), G.z(case["ident"]), G.z(BTIME0), evs)
     gone, goneb = vanish_sets(case)
     return "run_%s %s %s %s %s %s %s" % (case["op"], _fx(), tab, G.zs(gone), G.zs(goneb), G.opt(case["cache"], G.z), obj)
@@ -437,7 +457,7 @@ def finding_key(case, coq):
             return "children-yields-caller"
     if op == "parents" and tg["alive"] and tg["chain_cyclic"] and not FIXES["parents_seen"]:
         return "parents-nonterminating"
-    if tg["alive"] and tg["clock_skew"] and not FIXES["mono"]:
+    if tg["alive"] and tg["clock_skew"] and not FIXES["mono"]:     # only with C05_OLD=mono
         return "age-test-mixes-clocks"
     if op == "parents" and tg["alive"] and tg["ancestor_vanishes"] and not FIXES["parents_nsp"]:
         return "parents-ancestor-vanishes"
@@ -574,6 +594,14 @@ def impl_run(case, coq, env):
                     fp.set_btime(ev[1])
                 elif ev[0] == "boot":
                     psutil.boot_time()
+                elif ev[0] == "as_dict":
+                    obj.as_dict(attrs=["pid", "create_time", "ppid"])
+                elif ev[0] in PRIOR_CALLS:           # an earlier call on the same object; its answer is not looked at
+                    try:
+                        {"children": obj.children, "children_rec": lambda: obj.children(recursive=True),
+                         "parent": obj.parent, "parents": obj.parents}[ev[0]]()
+                    except psutil.Error:
+                        pass
                 else:
                     raise ValueError(ev)
             if cur is None:
